@@ -30,8 +30,17 @@ func kern(driver fontP.SimpleKerns, crossStream bool, font *Font, buffer *Buffer
 		}
 
 		skippyIter.reset(idx, 1)
-		if ok, _ := skippyIter.next(); !ok {
-			idx++
+		if ok, unsafeTo := skippyIter.next(); !ok {
+			// The search stopped at unsafeTo-1 (a glyph which can neither be skipped nor
+			// matched, or the end of the buffer) : the glyphs in between are all skipped,
+			// so that starting again from one of them would fail the same way. Jumping
+			// over them avoids scanning a long tail of marks or default
+			// ignorables once per glyph.
+			if stop := unsafeTo - 1; stop > idx {
+				idx = stop
+			} else {
+				idx++
+			}
 			continue
 		}
 
